@@ -306,13 +306,18 @@ def encBState (st : BState) : String :=
     encBool st.poisoned
 
 /-- `builder <world> <ops>` → `<results> <log> <dirs> <metas> <resolved> <deprecations> <analysed> <poisoned>` -/
-def handleBuilder (toks : List String) : String :=
+def handleBuilder (withTraceDiags : Bool) (toks : List String) : String :=
   match toks with
   | [world, ops] =>
     match decWorld world, (splitNE ops ";").mapM decOp with
     | some w, some ops =>
       let (st, rs) := runOps w drainFuel BState.init ops
-      String.intercalate "|" (rs.map encOpResult) ++ " " ++ encList (st.log.reverse.map encEv) ++ " " ++ encBState st
+      -- a tracer without a Diagnostics callback sees no `traceDiags` events
+      let log := st.log.reverse.filter fun e =>
+        match e with
+        | .traceDiags _ => withTraceDiags
+        | _ => true
+      String.intercalate "|" (rs.map encOpResult) ++ " " ++ encList (log.map encEv) ++ " " ++ encBState st
     | _, _ => "not-utf8"
   | _ => "bad-op"
 
@@ -507,7 +512,8 @@ def handle (line : String) : String :=
     | some args => handleAddr fn args
   | "resolve" :: rest => handleResolve rest
   | "unpack" :: rest => handleUnpack rest
-  | "builder" :: rest => handleBuilder rest
+  | "builder" :: rest => handleBuilder true rest
+  | "builder-notd" :: rest => handleBuilder false rest
   | "remote" :: rest => handleRemote rest
   | "pack" :: rest => handlePack rest
   | "bundle" :: rest => handleBundle rest
